@@ -15,7 +15,9 @@ import shutil
 
 from vlib import worlds as W
 
-STRUCTS = ["K1", "K2", "K4", "P1", "Q1", "N1", "N2", "N3", "X1", "X2", "M1", "A1", "G1", "S1", "V1", "W1", "V2"]
+STRUCTS = ["K1", "K2", "K4", "P1", "Q1", "N1", "N2", "N3", "X1", "X2", "M1", "A1", "G1", "S1", "V1", "W1", "V2", "H1", "H2"]
+# gene G6: 8 exons of 150 bp, a 1-kb middle intron; its 5' half and 3' half can be covered by disjoint read clusters
+G6_EXONS = [[4601, 4750], [4901, 5050], [5201, 5350], [5501, 5650], [6701, 6850], [7001, 7150], [7301, 7450], [7601, 7750]]
 G5_EXONS = [[9001, 9300], [9801, 10000], [10601, 10800], [11401, 11700], [12501, 13000]]     # long last exon (500 bp)
 LEVELS = (1, 3, 12)
 
@@ -67,6 +69,10 @@ def structure_reads(struct, level, tag):
             b = [list(G5_EXONS[i]) for i in (0, 1, 3, 4)]
             b[-1][1] = (12800, 12760, 12700)[k % 3]
             reads.append(W.read_of(nm, "chr1", b, polya=False))
+        elif struct == "H1":       # novel exon-skipping isoform in the 5' half of G6 (exons 1,3,4), polyA-tailed, no read bridges to the 3' half
+            reads.append(W.read_of(nm, "chr1", [G6_EXONS[i] for i in (0, 2, 3)]))
+        elif struct == "H2":       # novel exon-skipping isoform in the 3' half of G6 (exons 5,7,8)
+            reads.append(W.read_of(nm, "chr1", [G6_EXONS[i] for i in (4, 6, 7)]))
         elif struct == "S1":
             b = E([0, 1, 2, 4])
             if k % 2:
@@ -82,7 +88,16 @@ def make_world(scenario, annotated=True):
     g1 = W.locus_gene("G1", "chr1", "+", 1000, {"T1": [0, 1, 2, 3, 4], "T2": [0, 2, 3, 4]})
     g2 = W.locus_gene("G2", "chr2", "-", 1000, {"T4": [0, 1, 2, 3]})
     g5 = {"id": "G5", "chr": "chr1", "strand": "+", "transcripts": [{"id": "T7", "exons": [list(e) for e in G5_EXONS]}]}
-    w["genes"] = [g1, g2, g5]
+    g6 = {"id": "G6", "chr": "chr1", "strand": "+", "transcripts": [{"id": "T8", "exons": [list(e) for e in G6_EXONS]}]}
+    w["genes"] = [g1, g2, g5, g6]
+    if annotated == 2:
+        # the reference is itself an IsoQuant output: ids in IsoQuant's style with consecutive numbers on one chromosome
+        ren = {"T2": "transcript1.chr1.nic", "T7": "transcript2.chr1.nnic", "T8": "transcript3.chr1.nnic", "T4": "transcript1.chr2.nnic"}
+        gren = {"G5": "novel_gene_chr1_4", "G6": "novel_gene_chr1_5"}
+        for g in w["genes"]:
+            g["id"] = gren.get(g["id"], g["id"])
+            for t in g["transcripts"]:
+                t["id"] = ren.get(t["id"], t["id"])
     syn.plant_for_transcripts(w)
     # sites for unannotated structures
     W.add_sites_for_blocks(w, "chr1", [slot(i) for i in (0, 1, 2, 4)], "+")
@@ -91,6 +106,8 @@ def make_world(scenario, annotated=True):
     W.add_sites_for_blocks(w, "chr1", [[501, 525], slot(0)], "+")
     W.add_sites_for_blocks(w, "chr2", [W.slot(8000, 0), W.slot(8000, 1), W.slot(8000, 2)], "+")
     W.add_sites_for_blocks(w, "chr1", [G5_EXONS[i] for i in (0, 1, 3, 4)], "+")
+    W.add_sites_for_blocks(w, "chr1", [G6_EXONS[i] for i in (0, 2, 3)], "+")
+    W.add_sites_for_blocks(w, "chr1", [G6_EXONS[i] for i in (4, 6, 7)], "+")
     W.dedup_sites(w)
     reads = []
     for i, (st, lv) in enumerate(scenario):
@@ -118,10 +135,10 @@ def run_scenario(scenario, annotated, strategy, scratch, tag, extra=(), data_typ
     w = make_world(scenario, annotated)
     d = os.path.join(scratch, "mix_" + tag)
     shutil.rmtree(d, ignore_errors=True)
-    paths = syn.materialise(w, d, gtf=annotated)
+    paths = syn.materialise(w, d, gtf=bool(annotated))
     out = os.path.join(d, "out")
     ex = ["--model_construction_strategy", strategy] if strategy else []
-    rc = run.run_isoquant(run.base_argv(paths, out, data_type=data_type, genedb=annotated, extra=ex + list(extra)), paths["home"],
+    rc = run.run_isoquant(run.base_argv(paths, out, data_type=data_type, genedb=bool(annotated), extra=ex + list(extra)), paths["home"],
                           os.path.join(d, "o.txt"), pre_hook=pre_hook)
     return rc, out, w, paths, d
 
